@@ -171,14 +171,6 @@ Definition path_mixes (pi : path) : bool :=
 Definition has_mixed_path (p : cpol) : Prop :=
   exists pi, In pi (paths p) /\ path_mixes pi = true.
 
-(* every sub-policy is satisfiable (has a path) *)
-Fixpoint all_sat (p : cpol) : bool :=
-  negb (match paths p with [] => true | _ => false end) &&
-  match p with
-  | CAnd subs | COr subs | CThresh _ subs => forallb all_sat subs
-  | _ => true
-  end.
-
 (* the normal form normalized() is meant to produce: no constants below the root, at least
    two children per threshold, 1 <= k <= n, no and directly under an and, no or directly
    under an or *)
@@ -259,20 +251,15 @@ Definition cex_implies (p q : spol) : option (list spol) :=
    Input classes on which the pinned implementation is known to deviate from the
    specification (each is the side condition of a theorem in Properties/C18.v and the key
    of a line in known_findings.txt). *)
-(* entails matches Unsatisfiable/Trivial on the arguments BEFORE normalizing them *)
-Definition entails_defect (a b : spol) : bool :=
-  match a with
-  | SUnsat => false
-  | STriv => negb (is_triv b) && is_triv (normalized b)
-  | _ => is_unsat (normalized a) && (is_unsat b || negb (is_const (normalized b)))
-  end.
 (* minimum_n_keys counts key leaves, not distinct keys *)
 Definition has_dup_keys (p : spol) : bool :=
   negb (length (dedupN (keys_of p)) =? length (keys_of p)).
-(* Concrete::And is lifted with the constant threshold 2 *)
-Fixpoint and_arity_bad (c : cpol) : bool :=
+(* lift re-runs check_timelocks on every sub-policy, also inside unsatisfiable branches that
+   check_timelocks itself ignores: it can refuse a policy that check_timelocks accepts *)
+Fixpoint any_sub_rejected (c : cpol) : bool :=
+  negb (check_timelocks c) ||
   match c with
-  | CAnd subs => negb (length subs =? 2) || existsb and_arity_bad subs
-  | COr subs | CThresh _ subs => existsb and_arity_bad subs
+  | CAnd subs | COr subs | CThresh _ subs => existsb any_sub_rejected subs
   | _ => false
   end.
+Definition lift_refusal_defect (c : cpol) : bool := check_timelocks c && any_sub_rejected c.
